@@ -228,6 +228,7 @@ type c08View struct {
 	loadIndex func()
 	close     func()
 	pages     parquet.Pages // page mode: the handle, for the verif hook
+	strictNeg bool          // page-level reader of a file: a negative row index must be refused
 }
 
 type c08TypedReader interface {
@@ -449,6 +450,10 @@ func (f *c08File) open(sp c08Spec) (v *c08View, err error) {
 	default:
 		return nil, fmt.Errorf("unknown view kind %q", sp.Kind)
 	}
+	switch sp.Kind {
+	case "pages", "values", "multi-pages", "multi-values", "range-pages":
+		v.strictNeg = true
+	}
 	return v, nil
 }
 
@@ -551,6 +556,9 @@ func (ck *c08Checker) step(op c08Op) (desc string, fail *c08Fail) {
 		case op.A < 0:
 			if err == nil {
 				ck.dead = true
+				if v.strictNeg {
+					return fmt.Sprintf("%v -> nil", op), &c08Fail{sym: "accepted", msg: fmt.Sprintf("SeekToRow(%d) was not refused by a page-level reader of a file (a negative index must be an error that leaves the position unchanged)", op.A)}
+				}
 			}
 			return fmt.Sprintf("%v -> %s", op, errName(err)), nil
 		case err == nil:
@@ -1382,6 +1390,10 @@ func RunC08(ctx *core.Ctx) {
 								continue
 							}
 							w.runCase(f, sp, ops, "regression: "+reg.name)
+							if !strings.HasPrefix(kind, "buffer-") {
+								sp.Async = true
+								w.runCase(f, sp, ops, "regression: "+reg.name)
+							}
 						}
 					}
 				}
